@@ -637,7 +637,12 @@ func (k Keeper) CancelAuction(ctx context.Context, msg *types.MsgCancelAuction) 
 		return err
 	}
 
-	if auction.GetAuctioneer().String() != msg.Auctioneer {
+	auctioneer, err := sdk.AccAddressFromBech32(msg.Auctioneer)
+	if err != nil {
+		return err
+	}
+
+	if !auction.GetAuctioneer().Equals(auctioneer) {
 		return sdkerrors.Wrap(errors.ErrUnauthorized, "only the auctioneer can cancel the auction")
 	}
 
